@@ -131,7 +131,7 @@ package parser
 //@ invariant wfLex(l) && l.pos >= old(l.pos)
 //@ decreases len(l.input) - int(l.pos)
 //@ func (*Lexer).scanNumber
-//@ props C05
+//@ props C05 C07
 //@ modifies l.pos, l.width
 //@ ensures l.pos >= old(l.pos)
 //@ func (*Lexer).cur
@@ -168,7 +168,7 @@ package parser
 //@ implements parser.stateFn
 //@ exits separate
 //@ func lexKeywordOrIdentifier
-//@ props C05
+//@ props C05 C07
 //@ implements parser.stateFn
 // assumed (read off the table literal in lex.go, never written after init): no keyword is a comment
 //@ entryassume forall k string :: dom(keywords, k) ==> keywords[k] != COMMENT
@@ -184,10 +184,10 @@ package parser
 //@ invariant wfLex(l) && l.start == old(l.start) && !l.scannedItem && l.itemp == old(l.itemp) && l.input == old(l.input) && blanks(l.input, l.start, l.pos)
 //@ decreases len(l.input) - int(l.pos)
 //@ func lexNumberOrDuration
-//@ props C05
+//@ props C05 C07
 //@ implements parser.stateFn
 //@ func lexRawString
-//@ props C05
+//@ props C05 C07
 //@ implements parser.stateFn
 //@ loop 1
 //@ invariant l.pos >= old(l.pos)
@@ -202,7 +202,7 @@ package parser
 //@ invariant wfLex(l) && l.start == old(l.start) && !l.scannedItem && l.itemp == old(l.itemp) && l.input == old(l.input)
 //@ decreases (r == -1 || r == 10 || r == 13) ? 0 : 1 + len(l.input) - int(l.pos)
 //@ func lexEscape
-//@ props C05
+//@ props C05 C07
 //@ implements parser.stateFn
 //@ loop 1
 //@ invariant l.pos - l.width >= l.start
@@ -212,9 +212,11 @@ package parser
 // at most 8 digits of a base <= 16: the accumulated value stays below 2^32
 // progress: once a digit was consumed the cursor before the look-ahead is past the entry position
 //@ invariant (n == 3 && base == 8 && l.pos > old(l.pos)) || l.pos - l.width > old(l.pos)
+// the accumulated value never wraps around (it is compared with the largest code point afterwards)
+//@ invariant 0 <= x
 //@ invariant base <= 16 && n <= 8 && (n >= 8 ==> x < 1) && (n >= 7 ==> x < 16) && (n >= 6 ==> x < 256) && (n >= 5 ==> x < 4096) && (n >= 4 ==> x < 65536) && (n >= 3 ==> x < 1048576) && (n >= 2 ==> x < 16777216) && (n >= 1 ==> x < 268435456)
 //@ func lexMultilineString
-//@ props C05
+//@ props C05 C07
 //@ implements parser.stateFn
 //@ loop 1
 //@ invariant l.pos >= old(l.pos)
@@ -223,7 +225,7 @@ package parser
 //@ invariant l.scannedItem ==> l.itemp.Typ == ERROR
 //@ decreases len(l.input) - int(l.pos)
 //@ func lexString
-//@ props C05
+//@ props C05 C07
 //@ implements parser.stateFn
 //@ loop 1
 //@ invariant l.pos >= old(l.pos)
@@ -405,7 +407,11 @@ package parser
 
 // a leading sign is folded into a numeric literal: - negates it, + leaves it
 //@ func (*parser).newUnaryExpr
-//@ props C07
+//@ props C07 C17
+// a sign folded into a numeric literal moves the literal's start to the sign
+//@ ensures[C17] r != nil && (op.Typ == SUB || op.Typ == ADD) && old(r.NodeType) == ast.TypeIntegerLiteral ==> ncalls((*PosCache).LnCol) == 1 && callarg((*PosCache).LnCol, 0, 1) == op.Pos && r.elem.(*ast.IntegerLiteral).Start == callres((*PosCache).LnCol, 0, 0)
+//@ ensures[C17] r != nil && (op.Typ == SUB || op.Typ == ADD) && old(r.NodeType) == ast.TypeFloatLiteral ==> ncalls((*PosCache).LnCol) == 1 && callarg((*PosCache).LnCol, 0, 1) == op.Pos && r.elem.(*ast.FloatLiteral).Start == callres((*PosCache).LnCol, 0, 0)
+//@ ensures[C17] r != nil && !((op.Typ == SUB || op.Typ == ADD) && (old(r.NodeType) == ast.TypeIntegerLiteral || old(r.NodeType) == ast.TypeFloatLiteral)) ==> result != nil && result.NodeType == ast.TypeUnaryExpr && ncalls((*PosCache).LnCol) == 1 && callarg((*PosCache).LnCol, 0, 1) == op.Pos && result.elem.(*ast.UnaryExpr).OpPos == callres((*PosCache).LnCol, 0, 0) && result.elem.(*ast.UnaryExpr).RHS == r
 //@ ensures r != nil && (op.Typ == SUB || op.Typ == ADD) && old(r.NodeType) == ast.TypeIntegerLiteral ==> result == r && r.elem.(*ast.IntegerLiteral).Val == (op.Typ == SUB ? -old(r.elem.(*ast.IntegerLiteral).Val) : old(r.elem.(*ast.IntegerLiteral).Val))
 //@ ensures r != nil && (op.Typ == SUB || op.Typ == ADD) && old(r.NodeType) == ast.TypeFloatLiteral ==> result == r && same(r.elem.(*ast.FloatLiteral).Val, (op.Typ == SUB ? -old(r.elem.(*ast.FloatLiteral).Val) : old(r.elem.(*ast.FloatLiteral).Val)))
 //@ ensures r == nil ==> result == nil
